@@ -318,6 +318,10 @@ pub fn describe(kind: Kind, v: i64) -> Value {
     }
 }
 
+fn txt(v: &Value) -> &str {
+    v.as_str().unwrap_or("?")
+}
+
 pub fn case_json(kind: Kind, v: i64) -> Value {
     json!({"kind": kind.name(), "value": v})
 }
@@ -350,21 +354,21 @@ pub fn emit(rep: &mut Report, st: &Stats) {
             Clause::Encode => format!(
                 "{} {first}: the crate wrote {} where the protocol encoding is {}",
                 key.kind.name(),
-                trace["crate_written_bytes"],
-                trace["reference_bytes"]
+                txt(&trace["crate_written_bytes"]),
+                txt(&trace["reference_bytes"])
             ),
             Clause::Roundtrip => format!(
                 "{} {first}: read(write(v)) = {} with {} byte(s) left over (written {})",
                 key.kind.name(),
-                trace["crate_read_of_written_bytes"],
+                txt(&trace["crate_read_of_written_bytes"]),
                 trace["bytes_left_over_after_read"],
-                trace["crate_written_bytes"]
+                txt(&trace["crate_written_bytes"])
             ),
             Clause::Decode => format!(
                 "{} {first}: the crate read the protocol encoding {} as {} with {} byte(s) left over",
                 key.kind.name(),
-                trace["reference_bytes"],
-                trace["crate_read_of_reference_bytes"],
+                txt(&trace["reference_bytes"]),
+                txt(&trace["crate_read_of_reference_bytes"]),
                 trace["bytes_left_over_after_read_of_reference"]
             ),
             Clause::Panic => format!(
